@@ -300,6 +300,9 @@ func (down *rtpDownTrack) Write(buf []byte) (int, error) {
 	buf2 := ibuf2.([]byte)
 
 	n := copy(buf2, buf)
+	// the map counts the picture ids that were dropped, RewritePacket
+	// adds its argument to the picture id
+	piddelta = -piddelta
 	err = codecs.RewritePacket(codec, buf2[:n], setMarker, newseqno, piddelta)
 	if err != nil {
 		return 0, err
